@@ -15,13 +15,12 @@ let vercmp (fs : string list) : string =
   let a = str_of_hex (L.nth fs 0) and b = str_of_hex (L.nth fs 1) in
   let pa = DebVersion.parse_version a and pb = DebVersion.parse_version b in
   let show = function None -> "ERR" | Some v -> ver_s v in
-  let cmp, rev, eq, refc =
+  let cmp, rev, eq =
     match pa, pb with
     | Some x, Some y ->
         res_str cmp_s (DebVersion.ver_cmp x y), res_str cmp_s (DebVersion.ver_cmp y x),
-        res_str bool_s (DebVersion.ver_eq x y), cmp_s (DebVersion.vcmp x y)
-    | _, _ -> "-", "-", "-", "-" in
-  ignore refc;
+        res_str bool_s (DebVersion.ver_eq x y)
+    | _, _ -> "-", "-", "-" in
   whole_hang [cmp; rev; eq]
     (Printf.sprintf "a=%s|b=%s|cmp=%s|rev=%s|eq=%s" (show pa) (show pb) cmp rev eq)
 
@@ -95,13 +94,17 @@ let sat (fs : string list) : string =
     let on lk = match typed with None -> "-" | Some f -> rb (Sat.deb_lossy_sat f lk) in
     let yc = on closure and ym = on hmap in
     let yp = match pair with None -> "-" | Some p -> on p in
+    let sv = match typed with None -> "-" | Some f ->
+      (match Sat.deb_sv_field f with
+       | Base.Ok t -> rb (Sat.deb_ll_sat t closure)
+       | Base.Err _ -> "ERR" | Base.Panic _ -> "PANIC" | Base.OutOfFuel -> "HANG") in
     let lk = cat "," (L.map (fun n ->
         Printf.sprintf "%s/%s/%s" (opt_ver (Sat.lookup_version hmap n)) (opt_ver (Sat.lookup_version closure n))
           (match pair with None -> "-" | Some p -> opt_ver (Sat.lookup_version p n)))
         (parse_probes (L.nth fs 3))) in
-    whole_hang [ll; lr; ly; lc; yc; ym; yp]
-      (Printf.sprintf "ty=%s|ll=%s|lr=%s|ne=%s|le=%s|ly=%s|rt=%s|lc=%s|yc=%s|ym=%s|yp=%s|lk=%s"
-         (match typed with None -> "0" | Some _ -> "1") ll lr ne le ly rt lc yc ym yp lk)
+    whole_hang [ll; lr; ly; lc; yc; ym; yp; sv]
+      (Printf.sprintf "ty=%s|ll=%s|lr=%s|ne=%s|le=%s|ly=%s|rt=%s|lc=%s|yc=%s|ym=%s|yp=%s|sv=%s|lk=%s"
+         (match typed with None -> "0" | Some _ -> "1") ll lr ne le ly rt lc yc ym yp sv lk)
 
 let () = register "sat-text" sat_text
 let () = register "sat" sat
